@@ -169,6 +169,10 @@ class G:
         body = self.block(2, n=self.r.randint(1, 5))
         if retint:
             body.append('    return %s;' % self.e(self.r.randint(0, 3)))
+        elif self.r.random() < 0.5:
+            # an `empty` function that returns early on some inputs and falls off its end on others
+            cond = ('%s %s %d' % (params[0], self.r.choice(['<', '>', '==', '!=']), self.r.choice([0, 1, 2, 7]))) if params else self.cmp(0)
+            body.insert(self.r.randint(0, len(body)), '    if (%s) {\n        return;\n    }' % cond)
         self.scopes, self.loopvars, self.in_try, self.in_handler = saved
         self.ret_int = False
         text = '%s %s(%s) {\n' % ('int' if retint else 'empty', name, ', '.join('int ' + q for q in params)) + '\n'.join(body) + '\n}\n'
